@@ -53,25 +53,36 @@ func c12Tag(branch, index uint32) []byte {
 // (indexes 0..n-1), some of them used", the request succeeds iff n < G or one of the last G issued indexes
 // is used; then the returned address has index n, the stored counter becomes n+1, the in-memory maps gain
 // exactly that entry; a refusal changes nothing.
-func VerifC12IssueNext() {
-	const wid = "ac10aaaaaaaaaaaaaaaaaaaaaaaaaaaaaaaaaaaaaa"
-	db := mdb.New()
-	store := db.Top("km").Sub(wid)
-	n := uint32(rt.NondetLen(0, 5))
-	G := uint32(rt.NondetLen(2, 4))
+type c12State struct {
+	db     *mdb.DB
+	store  *mdb.Bucket
+	am     *AddrManager
+	n, G   uint32
+	used   [5]bool
+	wid    string
+	check  func([]byte) (bool, error)
+}
+
+// c12Setup: n addresses issued on the external branch (stored counter, in-memory counter and maps agree),
+// arbitrary used-bits, gap limit G.
+func c12Setup() *c12State {
+	st := &c12State{wid: "ac10aaaaaaaaaaaaaaaaaaaaaaaaaaaaaaaaaaaaaa"}
+	st.db = mdb.New()
+	st.store = st.db.Top("km").Sub(st.wid)
+	st.n = uint32(rt.NondetLen(0, 5))
+	st.G = uint32(rt.NondetLen(2, 4))
 	cnt := make([]byte, 4)
-	binary.LittleEndian.PutUint32(cnt, n)
-	store.Set(externalChildNumName, cnt)
-	store.Set(internalChildNumName, []byte{0, 0, 0, 0})
-	am := &AddrManager{keystoreName: wid, index: map[uint32]string{}, addrs: map[string]*ManagedAddress{},
-		acctInfo: &accountInfo{acctKeyPub: hdkeychain.VerifOpaqueKey([]byte("acct"), false)}, branchInfo: &branchInfo{},
-		storage: store.GetBucketMeta(), cryptoKeyPub: c12Enc{}}
-	var used [5]bool
-	for i := uint32(0); i < n; i++ {
-		used[i] = rt.NondetBool()
+	binary.LittleEndian.PutUint32(cnt, st.n)
+	st.store.Set(externalChildNumName, cnt)
+	st.store.Set(internalChildNumName, []byte{0, 0, 0, 0})
+	st.am = &AddrManager{keystoreName: st.wid, index: map[uint32]string{}, addrs: map[string]*ManagedAddress{},
+		acctInfo: &accountInfo{acctKeyPub: hdkeychain.VerifOpaqueKey([]byte("acct"), false)}, branchInfo: &branchInfo{nextExternalIndex: st.n},
+		storage: st.store.GetBucketMeta(), cryptoKeyPub: c12Enc{}}
+	for i := uint32(0); i < st.n; i++ {
+		st.used[i] = rt.NondetBool()
 		a := "addr-" + string(c12Tag(ExternalBranch, i))
-		am.index[i] = a
-		am.addrs[a] = &ManagedAddress{address: a, scriptHash: append([]byte{0xee}, c12Tag(ExternalBranch, i)...), derivationPath: DerivationPath{Branch: ExternalBranch, Index: i}}
+		st.am.index[i] = a
+		st.am.addrs[a] = &ManagedAddress{address: a, scriptHash: append([]byte{0xee}, c12Tag(ExternalBranch, i)...), derivationPath: DerivationPath{Branch: ExternalBranch, Index: i}}
 	}
 	// derivation is opaque: child of the account key = branch key, child of a branch key = tagged index key
 	hdkeychain.VerifChildStub = func(k *hdkeychain.ExtendedKey, i uint32) (*hdkeychain.ExtendedKey, error) {
@@ -82,27 +93,46 @@ func VerifC12IssueNext() {
 		}
 		return hdkeychain.VerifOpaqueKey(c12Tag(binary.BigEndian.Uint32(k.VerifTag()), i), false), nil
 	}
-	checkUsed := func(sh []byte) (bool, error) {
+	st.check = func(sh []byte) (bool, error) {
 		idx := binary.BigEndian.Uint32(sh[5:9])
-		return used[idx], nil
+		return st.used[idx], nil
 	}
+	return st
+}
+
+func (st *c12State) allowed() bool {
+	ok := st.n < st.G
+	for i := uint32(0); i < st.n; i++ {
+		if i+st.G >= st.n && st.used[i] {
+			ok = true
+		}
+	}
+	return ok
+}
+
+func (st *c12State) issue() ([]*ManagedAddress, error) {
 	var got []*ManagedAddress
-	err := mwdb.Update(db, func(tx mwdb.DBTransaction) error {
-		mas, e := am.nextAddresses(tx, checkUsed, false, 1, G, config.ChainParams, 1, 0)
+	err := mwdb.Update(st.db, func(tx mwdb.DBTransaction) error {
+		mas, e := st.am.nextAddresses(tx, st.check, false, 1, st.G, config.ChainParams, 1, 0)
 		if e != nil {
 			return e
 		}
 		got = mas
-		return am.updateManagedAddress(tx, mas)
+		return st.am.updateManagedAddress(tx, mas)
 	})
-	allowed := n < G
-	for i := uint32(0); i < n; i++ {
-		if i+G >= n && used[i] {
-			allowed = true
-		}
-	}
-	rt.Assert((err == nil) == allowed, "issued-iff-gap-rule-allows")
-	stored := binary.LittleEndian.Uint32(store.Lookup(externalChildNumName))
+	return got, err
+}
+
+func (st *c12State) storedCounter() uint32 {
+	return binary.LittleEndian.Uint32(st.store.Lookup(externalChildNumName))
+}
+
+func VerifC12IssueNext() {
+	st := c12Setup()
+	n, am, store := st.n, st.am, st.store
+	got, err := st.issue()
+	rt.Assert((err == nil) == st.allowed(), "issued-iff-gap-rule-allows")
+	stored := st.storedCounter()
 	if err == nil {
 		rt.Assert(len(got) == 1 && got[0].derivationPath.Index == n && got[0].derivationPath.Branch == ExternalBranch, "next-index-issued")
 		rt.Assert(stored == n+1, "counter-advanced-by-one")
@@ -115,6 +145,36 @@ func VerifC12IssueNext() {
 	} else {
 		rt.Assert(err == ErrGapLimit, "refusal-is-gap-limit-error")
 		rt.Assert(stored == n && len(am.index) == int(n), "refusal-changes-nothing")
+	}
+	rt.Reach("end")
+}
+
+// VerifC18NewAddressRetry: the n-th database call of issuing an address fails (any n, including the commit);
+// the operation reports failure, the stored counter is unchanged, and repeating it once storage works again
+// issues the SAME index - no skipped or duplicated address index.
+func VerifC18NewAddressRetry() {
+	st := c12Setup()
+	rt.Assume(st.allowed())
+	n := st.n
+	st.db.Calls = 0
+	st.db.FaultAt = rt.NondetLen(1, 8)
+	_, err := st.issue()
+	faulted := st.db.Calls >= st.db.FaultAt
+	if faulted {
+		rt.Assert(err != nil, "storage-fault-is-reported")
+	}
+	if err != nil {
+		rt.Assert(st.storedCounter() == n, "failed-attempt-leaves-the-stored-counter")
+		st.db.FaultAt = 0
+		got, err2 := st.issue()
+		rt.Assert(err2 == nil, "retry-succeeds")
+		if err2 == nil {
+			rt.Assert(len(got) == 1 && got[0].derivationPath.Index == n, "retry-issues-the-same-index")
+			rt.Assert(st.storedCounter() == n+1, "counter-advanced-once")
+			rt.Assert(st.am.index[n] == got[0].address, "index-map-points-at-the-issued-address")
+			_, phantom := st.am.index[n+1]
+			rt.Assert(!phantom, "no-phantom-address-above-the-counter")
+		}
 	}
 	rt.Reach("end")
 }
